@@ -452,7 +452,7 @@ pub fn run(tier: Tier, _replay: Option<String>) -> i32 {
         "C03",
         tier,
         "model_checking",
-        "chain histories of the real NutsChain (diag / low-rank x Euclidean / ExactNormal; dims 0,1,2; maxdepth 0..3; mindepth 0,1; target_integration_time; tight / loose max_energy_error; optional injected divergence): every direction answer and every accept/reject answer within a reject budget, 2 (3) draws deep; each history is replayed on an independent mirror chain whose trajectories are judged by R-nuts. states = choice points, transitions = answers, traces validated = histories compared; distinct = (estimator, stop reason, depth, sign of index)",
+        "chain histories of the real NutsChain (diag / low-rank x Euclidean / ExactNormal; dims 0,1,2; maxdepth 0..3; mindepth 0,1; target_integration_time inside and beyond what maxdepth allows; tight / loose max_energy_error; optional injected divergence): every direction answer and every accept/reject answer within a reject budget, 2 (3) draws deep; each history is replayed on an independent mirror chain whose trajectories are judged by R-nuts. states = choice points, transitions = answers, traces validated = histories compared; distinct = (estimator, stop reason, depth, sign of index)",
     );
     report.assume("momentum scripted at Math::array_gaussian (deterministic sequence), jitter off so that the RNG is consulted by nuts::draw only");
     report.assume("histories whose smallest decision margin is below 1e-7 are counted as ill-conditioned and not judged");
@@ -468,6 +468,8 @@ pub fn run(tier: Tier, _replay: Option<String>) -> i32 {
                         for (tt, mee, fault) in [
                             (None, 1000.0, None),
                             (Some(0.7), 1000.0, None),
+                            // a requested integration time that needs more doublings than maxdepth allows
+                            (Some(6.0), 1000.0, None),
                             (None, 0.05, None),
                             (None, 1000.0, Some((14u64, FaultKind::Recoverable))),
                         ] {
@@ -479,7 +481,7 @@ pub fn run(tier: Tier, _replay: Option<String>) -> i32 {
                             }
                             let n_draws = if maxdepth >= 3 { 2 } else { tier.pick(2, 3) };
                             for fixed_step in [None, Some(0.25), Some(0.9)] {
-                            if fixed_step.is_some() && (tt.is_some() || dim == 0) {
+                            if fixed_step.is_some() && ((tt.is_some() && tt != Some(6.0)) || dim == 0) {
                                 continue;
                             }
                             cfgs.push(Cfg {
